@@ -102,6 +102,8 @@ var errInjectedRead = errors.New("simulated stream: read failed")
 var errInjectedWrite = errors.New("simulated stream: write failed")
 var errReadBudget = errors.New("simulated stream: read budget exhausted (decoder does not terminate)")
 
+type readBudgetPanic struct{}
+
 type streamStats struct {
 	reads, shortReads, zeroReads, readErrors, truncations, eofWithData int
 }
@@ -123,6 +125,13 @@ func newSimReader(data []byte, plan ReadPlan, st *streamStats) *SimReader {
 func (r *SimReader) Read(p []byte) (int, error) {
 	r.st.reads++
 	r.call++
+	if r.call > 2*r.budget {
+		// emergency brake: the decoder keeps reading although it has been
+		// told (budget times) that the stream has failed; the only way out of
+		// its loop is a panic, which decodeWith turns into "does not terminate"
+		r.over = true
+		panic(readBudgetPanic{})
+	}
 	if r.call > r.budget {
 		r.over = true
 		return 0, errReadBudget
@@ -338,7 +347,10 @@ func decodeWith(data []byte, plan ReadPlan, ml, ii bool, st *streamStats) (out d
 	r := newSimReader(data, plan, st)
 	defer func() {
 		if p := recover(); p != nil {
-			out.panicVal = fmt.Sprint(p)
+			if _, brake := p.(readBudgetPanic); !brake {
+				out.panicVal = fmt.Sprint(p)
+			}
+			out.doc, out.err = nil, nil
 		}
 		out.over = r.over
 	}()
